@@ -223,7 +223,7 @@ package turn
 //@   assume-callee-pre
 //@   requires s != nil && conn != nil && s.log != nil && s.inboundMTU > 0
 //@   at-call server.HandleRequest assert [C05,C09:whole-datagram] n < s.inboundMTU && sameSlice(arg0.Buff, buf[:n]) && arg0.SrcAddr == addr && arg0.Conn == conn
-//@   at-call server.HandleRequest assert [C01,C02,C06,C07:configured-timeouts] arg0.ChannelBindTimeout == s.channelBindTimeout && arg0.PermissionTimeout == s.permissionTimeout && arg0.AllocationLifetime == s.allocationLifetime && arg0.AllocationManager == allocationManager && arg0.NonceHash == s.nonceHash && arg0.Realm == s.realm
+//@   at-call server.HandleRequest assert [C01,C02,C06,C07,C14:configured-timeouts] arg0.ChannelBindTimeout == s.channelBindTimeout && arg0.PermissionTimeout == s.permissionTimeout && arg0.AllocationLifetime == s.allocationLifetime && arg0.AllocationManager == allocationManager && arg0.NonceHash == s.nonceHash && arg0.Realm == s.realm
 //@   ensures [C09:serve-ends-only-on-read-error] lastReadFailed
 //@   loop 0 invariant fresh(base(buf)) && len(buf) > 0
 
@@ -248,7 +248,7 @@ package turn
 //@ spec func serverDefaults(s *Server, cbt int, pt int, al int, mtu int) bool = int(s.channelBindTimeout) == (cbt != 0 ? cbt : int(proto.DefaultLifetime)) && int(s.permissionTimeout) == (pt != 0 ? pt : int(allocation.DefaultPermissionTimeout)) && int(s.allocationLifetime) == (al != 0 ? al : int(proto.DefaultLifetime)) && s.inboundMTU == (mtu != 0 ? mtu : defaultInboundMTU) && s.nonceHash != nil
 //@ func NewServer
 //@   assume-callee-pre
-//@   ensures [C06,C07:configured-or-default] res1 == nil ==> res0 != nil && serverDefaults(res0, int(config.ChannelBindTimeout), int(config.PermissionTimeout), int(config.AllocationLifetime), config.InboundMTU)
+//@   ensures [C06,C07,C14:configured-or-default] res1 == nil ==> res0 != nil && serverDefaults(res0, int(config.ChannelBindTimeout), int(config.PermissionTimeout), int(config.AllocationLifetime), config.InboundMTU)
 //@   ensures [C03:handlers-as-configured] res1 == nil ==> res0.authHandler == config.AuthHandler && res0.realm == config.Realm
 //@   loop 0 invariant server != nil && fresh(server)
 //@   loop 0 invariant int(server.channelBindTimeout) == (int(config.ChannelBindTimeout) != 0 ? int(config.ChannelBindTimeout) : int(proto.DefaultLifetime))
